@@ -48,6 +48,8 @@ def is_inplace(line):
 
 def twin_line(line):
     # the NumPy twin has no constant flag: `constant=` keywords are dropped
+    # Tensor.copy() copies the underlying array as np.copy does (memory layout kept), not as ndarray.copy() (C order)
+    line = re.sub(r"\b(\w+)\.copy\(\)", r"np.copy(\1)", line)
     return re.sub(r",\s*constant=(True|False|None)", "", line).replace("mg.", "np.")
 
 
